@@ -17,6 +17,9 @@ func InstallTxnHook(s *kernel.Sim) {
 	simhook.YieldFn = func(point string) {
 		if strings.HasPrefix(point, "atomic:") {
 			// inserted by cmd/instrument before an atomic operation of the repository
+			if s.YieldEnabled("atomic") {
+				s.Probe("h3.parked_before_atomic_operation")
+			}
 			s.Yield("atomic", point)
 			return
 		}
